@@ -13,7 +13,7 @@ import (
 // pure library functions: fresh result, no heap effect, no panic.
 var libPure = map[string]bool{
 	"time.Now": true, "time.Sleep": true, "runtime.Gosched": true, "runtime/debug.Stack": true,
-	"strconv.Itoa": true, "errors.Is": true, "fmt.Sprintf": true, "fmt.Errorf": true, "fmt.Fprintf": true, "fmt.Fprint": true,
+	"strconv.Itoa": true, "errors.Is": true, "errors.New": true, "fmt.Sprintf": true, "fmt.Errorf": true, "fmt.Fprintf": true, "fmt.Fprint": true,
 	"context.Background": true, "reflect.TypeOf": true, "(time.Time).Add": true, "strings.Split": true,
 	"bytes.NewReader": true, "bytes.NewBuffer": true, "(*bytes.Buffer).Bytes": true,
 	"(*sync.WaitGroup).Add": true, "(*sync.WaitGroup).Done": true, "(*sync.WaitGroup).Wait": true,
@@ -182,7 +182,11 @@ func (x *Exec) libCall(st *State, fi int, full string, callee *ssa.Function, arg
 	}
 	if pure, ok := libPure[full]; ok && pure {
 		x.libUsed[full] = true
-		k(st, fresh("lib."+callee.Name()))
+		v := fresh("lib." + callee.Name())
+		if full == "fmt.Errorf" || full == "errors.New" {
+			st.assume(Not(Eq(iTag(v.T), IntLit(0)))) // a non-nil error value
+		}
+		k(st, v)
 		return true
 	}
 	return false
